@@ -94,6 +94,10 @@ def _sigma_case(rng, kind='sigma'):
         dst = dst[:-1] if len(dst) > 2 else dst      # does not share the top
     if rng.random() < 0.1:
         dst = list(src)
+    elif rng.random() < (0.4 if kind == 'apply' else 0.15) and len(src) > 3:
+        # pure collapsing: the target edges are some of the source edges (layers of unequal thickness are merged)
+        keep = sorted(rng.sample(range(1, len(src) - 1), rng.randint(0, len(src) - 3)))
+        dst = [src[0]] + [src[i] for i in keep] + [src[-1]]
     c = dict(kind=kind, src=[lib.show_rat(v) for v in src], dst=[lib.show_rat(v) for v in dst])
     c['data'] = [str(rng.randint(-9, 9)) for _ in range(len(src) - 1)]
     return c
@@ -124,8 +128,18 @@ def _interpdim_case(rng):
             else:
                 col.append(rng.choice([lo - Fraction(rng.randint(1, 8), 4), hi + Fraction(rng.randint(1, 8), 4)]))
         tg.append(sorted(col, reverse=xs[0] > xs[-1]))
+    if not nd and rng.random() < 0.25:
+        # large coordinate values (seconds since 1970, pressures in Pa) and a target of the same length shifted by half a
+        # step: nowhere near "the same coordinate"
+        off = Fraction(rng.choice([2 ** 30, 2 ** 17, 3 * 2 ** 28]))
+        asc = srcs[0][0] < srcs[0][-1]
+        st_ = rng.choice([1, 2, 4])
+        base2 = [off + Fraction(i if asc else nz - 1 - i) * st_ for i in range(nz)]
+        srcs = [list(base2) for _ in range(ncol)]
+        sh = Fraction(1, 2) * (1 if rng.random() < 0.5 else -1)
+        tg = [[v + sh for v in base2]]
     a, b = rng.randint(-4, 4), rng.randint(-5, 5)
-    return dict(kind='interpdim', nd=nd, extrapolate=rng.random() < 0.3,
+    return dict(kind='interpdim', nd=nd, extrapolate=rng.random() < 0.3, cube=rng.choice([None, 'square', 'other']),
                 srcs=[[lib.show_rat(v) for v in c] for c in srcs], tgts=[[lib.show_rat(v) for v in c] for c in tg],
                 a=a, b=b, data=[[rng.randint(-9, 9) for _ in range(nz)] for _ in range(ncol)])
 
@@ -196,8 +210,35 @@ def impl(case):
             xs = np.array([float(v) for v in _f(case['xs'])])
             nxs = np.array([float(v) for v in _f(case['nxs'])])
             w = getinterpweights(xs, nxs, extrapolate=case['extrapolate'])
-            # as list of columns (one per target)
-            return dict(cols=[[lib.show_rat(v) for v in w[:, j]] for j in range(w.shape[1])])
+            # the same weights applied with interpvars along the first or the second dimension of a 4-D variable (two or
+            # three axes behind the interpolated one; square and non-square horizontal grids), against a plain contraction
+            res = dict(cols=[[lib.show_rat(v) for v in w[:, j]] for j in range(w.shape[1])])
+            try:
+                import PseudoNetCDF as pnc
+                from PseudoNetCDF.core._functions import interpvars
+                n, m = w.shape
+                ax = (n + m) % 2
+                other = 2 if n != 2 else 3              # keep the other dimensions' lengths different from the old one
+                shape = [other, other, 2, 2 + (n + m) % 3 % 2]
+                shape[ax] = n
+                f = pnc.PseudoNetCDFFile()
+                for dk, ln in zip('tzyx', shape):
+                    f.createDimension(dk, ln)
+                v = f.createVariable('V', 'd', tuple('tzyx'))
+                idx = np.indices(shape)
+                lin = case['a'] * xs + case['b']
+                vals = np.take(lin, idx[ax]) + sum(10. ** (k + 1) * idx[k] for k in range(4) if k != ax)
+                v[:] = vals
+                if len({ln for k, ln in enumerate(shape) if k != ax} & {n}) == 0 and n != m:
+                    o = interpvars(f, w.T.copy(), 'tzyx'[ax])
+                    got = np.asarray(o.variables['V'][:])
+                    want = np.moveaxis(np.tensordot(vals, w, axes=(ax, 0)), -1, ax)
+                    if got.shape != want.shape or not np.allclose(got, want, rtol=0, atol=1e-6):
+                        res['ivbad'] = 'interpvars along dimension %d of a variable of shape %s: %s' % (
+                            ax, shape, 'shape %s, expected %s' % (got.shape, want.shape) if got.shape != want.shape else 'values differ from the contraction with the weights')
+            except Exception as e:
+                res['ivbad'] = 'interpvars raised %s %s' % (type(e).__name__, str(e)[:80])
+            return res
         if case['kind'] == 'interpdim':
             return _interpdim(case)
         if case['kind'] == 'bpchsigma':
@@ -282,7 +323,22 @@ def _interpdim(case):
             v[:] = arr
         w = f.createVariable('W', 'd', ('x',))
         w[:] = np.arange(ncol)
+        ny = None
+        if case.get('cube'):
+            # a variable with two axes behind the interpolated one (a square or a non-square horizontal grid)
+            ny = ncol if case['cube'] == 'square' else ncol + 1
+            f.createDimension('y', ny)
+            b3 = f.createVariable('B3', 'd', ('z', 'x', 'y'))
+            b3[:] = lin[:, :, None] + 100. * np.arange(ny)[None, None, :] + 1000. * np.arange(ncol)[None, :, None]
         o = f.interpDimension('z', np.array(tgts[0]), extrapolate=case['extrapolate'])
+        if ny:
+            got3 = np.asarray(o.variables['B3'][:])
+            lin_out = np.asarray(o.variables['LIN'][:])
+            want3 = lin_out[:, :, None] + 100. * np.arange(ny)[None, None, :] + 1000. * np.arange(ncol)[None, :, None]
+            b3bad = None if (got3.shape == want3.shape and np.allclose(got3, want3, rtol=0, atol=1e-6)) else \
+                'shape %s, expected %s%s' % (got3.shape, want3.shape, '' if got3.shape != want3.shape else ' (values differ)')
+            return dict(A=np.asarray(o.variables['A'][:]).T.tolist(), LIN=lin_out.T.tolist(), coord=np.asarray(o.variables['z'][:]).T.tolist(),
+                        W=np.asarray(o.variables['W'][:]).tolist(), nz=len(o.dimensions['z']), b3bad=b3bad)
     return dict(A=np.asarray(o.variables['A'][:]).T.tolist(), LIN=np.asarray(o.variables['LIN'][:]).T.tolist(),
                 coord=np.asarray(o.variables['ZH' if case['nd'] else 'z'][:]).T.tolist(),
                 W=np.asarray(o.variables['W'][:]).tolist(), nz=len(o.dimensions['z']))
@@ -431,6 +487,8 @@ def _oracle_interpdim(case, res):
         return 'dimension z has length %d after interpolation to %d values' % (res['nz'], nt)
     if res['W'] != list(range(ncol)):
         return 'a variable without the interpolated dimension changed'
+    if res.get('b3bad'):
+        return 'a variable (z, x, y) that is linear in z at every (x, y) is not interpolated like the (z, x) variable: %s' % res['b3bad']
     for k in range(ncol):
         xs = [Fraction(v) for v in case['srcs'][k]]
         t = [Fraction(v) for v in case['tgts'][k if case['nd'] else 0]]
@@ -466,6 +524,8 @@ def oracle(case, res):
             return 'interpolated values %s leave the range of the source values %s without extrapolation' % (res['got'], res['data'])
         return None
     if case['kind'] == 'weights':
+        if res.get('ivbad'):
+            return res['ivbad']
         xs, nxs = _f(case['xs']), _f(case['nxs'])
         a, b = case['a'], case['b']
         lo, hi = min(xs), max(xs)
